@@ -141,11 +141,8 @@ Ip::Address::applyMask(const unsigned int cidrMask, int mtype)
     if (cidrMask > 32 && mtype == AF_INET)
         return false;
 
-    if (cidrMask == 0) {
-        /* CIDR /0 is NoAddr regardless of the IPv4/IPv6 protocol */
-        setNoAddr();
-        return true;
-    }
+    // CIDR /0 needs no special handling: the loop below clears every address
+    // bit of the protocol family, producing a mask that matches any address
 
     clearbits = (uint8_t)( (mtype==AF_INET6?128:32) - cidrMask);
 
